@@ -36,6 +36,15 @@ pub struct Walrus {
     pub(super) fsync_schedule: FsyncSchedule,
 }
 
+impl Drop for Walrus {
+    /// The marker tracker is reference counted and its persister thread takes a temporary
+    /// reference while it works, so the tracker's own drop may run later on that thread: flush
+    /// the markers here, before the shutdown is reported complete to the caller.
+    fn drop(&mut self) {
+        self.topic_clean_tracker.flush_all();
+    }
+}
+
 impl Walrus {
     pub fn new() -> std::io::Result<Self> {
         Self::with_consistency(ReadConsistency::StrictlyAtOnce)
